@@ -17,7 +17,7 @@ LEAN_CONE = ['PncModel.Arr', 'PncModel.NsStep', 'PncModel.Generated.NamespaceOrd
              'PncProofs.SliceLemmas', 'PncProofs.C01Files', 'PncProofs.C04Files']
 LEMMA_FILES = ['PncProofs/StackLemmas.lean']
 REQUIRED_THEOREMS = ['concat_take_drop', 'concat_split_all', 'take_concat', 'drop_concat', 'concat_shape',
-                     'concatAll_eq', 'stackVar_data']
+                     'concatAll_eq', 'stackVar_data', 'orth_window', 'concat_atAxis', 'concat_windows']
 RULE = ('kind split: a random file is cut along a random dimension into 1..4 consecutive pieces (cut points '
         'anywhere incl. empty-free partitions), pieces are built independently and stacked; kind indep: 2..4 '
         'files sharing all other dimensions, with their own data and stack-dimension lengths, variables '
